@@ -50,6 +50,104 @@ def run_cli(job):
     return r
 
 
+# ---- prior state of the output directory: a history of steps in ONE sandbox, one output directory
+GEN_NAMES = ("types.ts", "commands.ts", "events.ts", "index.ts", ".typecache", "dependency-graph.txt", "dependency-graph.dot")
+STALE_TAIL = "".join("// stale line %d left over from an earlier generation\nexport interface Stale%d { a: number; }\n" % (i, i) for i in range(60))
+
+
+def mutate_out(sb, out, seed):
+    """damage every generated file name in the output directory: append a long tail, cut the file in
+    half, replace it by foreign text, delete it, or create it when it is missing"""
+    rng = random.Random(seed)
+    od = sb.path(out)
+    os.makedirs(od, exist_ok=True)
+    done = {}
+    for n in GEN_NAMES:
+        p = os.path.join(od, n)
+        kind = rng.choice(["tail", "tail", "half", "foreign", "delete"]) if os.path.isfile(p) else rng.choice(["foreign", "none"])
+        if kind == "tail":
+            open(p, "a").write("\n" + STALE_TAIL)
+        elif kind == "half":
+            b = open(p, "rb").read()
+            open(p, "wb").write(b[:len(b) // 2])
+        elif kind == "foreign":
+            open(p, "w").write("// not written by this tool\nexport const leftover = 1;\n" + STALE_TAIL * 2)
+        elif kind == "delete":
+            os.remove(p)
+        done[n] = kind
+    return done
+
+
+def run_history(job):
+    """steps: ("cli", case, mode, flags) | ("lib", case, mode, viz) | ("mutate", seed). Every generation is
+    forced and goes to the same output directory; returns the observation of the last generation."""
+    steps = job
+    res, k, notes = None, 0, []
+    with vlib.Sandbox("c13h") as sb:
+        ngen = sum(1 for st in steps if st[0] != "mutate")
+        for st in steps:
+            if st[0] == "mutate":
+                notes.append(mutate_out(sb, "out", st[1]))
+                continue
+            k += 1
+            # the last generation reads the sources from the same relative path as a fresh run does
+            # (paths are printed in dependency-graph.txt)
+            under = "proj" if k == ngen else "prev%d" % k
+            if st[0] == "cli":
+                res = projgen.generate(sb, st[1], st[2], out="out", under=under, extra=list(st[3]))
+            else:
+                projgen.write_project(sb, st[1], under)
+                os.makedirs(sb.path("out"), exist_ok=True)
+                case = {"id": 0, "project": under, "out": "out", "mode": st[2], "viz": bool(st[3])}
+                import subprocess
+                r = subprocess.run([vlib.harness_bin("c13"), "lib"], input=json.dumps(case) + "\n", stdout=subprocess.PIPE,
+                                   stderr=subprocess.DEVNULL, text=True, timeout=120, env=vlib.ENV, cwd=sb.root)
+                try:
+                    ans = json.loads(r.stdout.strip().split("\n")[-1])
+                except Exception:
+                    ans = {"ok": False, "error": "driver gave no answer (exit %s)" % r.returncode}
+                files = {}
+                for n in sorted(os.listdir(sb.path("out"))):
+                    q = os.path.join(sb.path("out"), n)
+                    if os.path.isfile(q):
+                        files[n] = vlib.strip_generated_at(open(q, "rb").read()).decode("utf-8", "replace")
+                res = {"status": 0 if ans.get("ok") else 1, "log": json.dumps(ans), "files": files}
+    res = dict(res)
+    res["mutations"] = notes
+    return res
+
+
+def bigger_project(rng, case):
+    """the project plus one more file with commands, types and events: every generated file of it is
+    longer than the corresponding file of the project"""
+    c = json.loads(json.dumps(case))
+    app = {"name": "app", "ty": projgen.P("AppHandle", segs=["tauri"])}
+    its = []
+    for k in range(3):
+        its.append({"kind": "struct", "name": "Extra%d" % k, "derives": ["Serialize", "Deserialize"], "serde": [],
+                    "fields": [{"name": "field_%d" % j, "ty": projgen.P("String"), "serde": [], "validate": []} for j in range(6)]})
+        its.append({"kind": "fn", "name": "extra_command_%d" % k, "attrs": [["tauri", "command"]], "async": False, "vis": "pub",
+                    "params": [dict(app), {"name": "payload_value", "ty": projgen.P("Extra%d" % k)}, {"name": "n", "ty": projgen.P("u32")}],
+                    "ret": projgen.P("Extra%d" % k), "body": [{"emit": "extra-event-%d" % k, "recv": "app", "payload": "payload_value"}]})
+    c["files"]["src/zz_extra_%d.rs" % rng.randint(0, 9)] = its
+    return c
+
+
+def prior_scenarios(rng, case, mode):
+    other = "zod" if mode == "none" else "none"
+    big = bigger_project(rng, case)
+    viz = ("--visualize-deps",)
+    sc = [("after-bigger-zod", [("cli", big, "zod", viz), ("cli", case, mode, ())]),
+          ("over-damaged-files", [("cli", case, mode, viz), ("mutate", rng.randrange(1 << 30)), ("cli", case, mode, viz)]),
+          ("lib-fresh", [("lib", case, mode, True)]),
+          ("lib-over-bigger-and-damaged", [("cli", big, "zod", viz), ("mutate", rng.randrange(1 << 30)), ("lib", case, mode, True)])]
+    if rng.random() < 0.5:
+        sc.append(("after-other-mode", [("cli", case, other, viz), ("cli", case, mode, ())]))
+    else:
+        sc.append(("over-foreign-files", [("mutate", rng.randrange(1 << 30)), ("cli", case, mode, viz)]))
+    return [{"kind": k, "steps": st, "res": None} for k, st in sc]
+
+
 def pascal(s):
     return "".join(w[:1].upper() + w[1:] for w in s.split("_") if w)
 
@@ -391,6 +489,41 @@ def evaluate(groups, tier):
             results.append(("viz", Outcome(dict(case_id, aspect="viz"), all(r.corr for r in vr), not fails, None,
                                            {"runs": len(vr), "failures": fails[:4],
                                             "distinct_versions": {f: len(versions(vr, f)) for f in VIZ}}, nontriv)))
+        # ---- aspect: the prior state of the output directory must not matter
+        if g.get("prior"):
+            fails = []
+            fresh = {f: g["versions"][f][0] for f in TS}
+            for f in VIZ:
+                vs = versions(vr, f) if vr else []
+                fresh[f] = vs[0] if vs else None
+            libfresh = next((sc["res"] for sc in g["prior"] if sc["kind"] == "lib-fresh"), None)
+            lib_equals_cli = None
+            if libfresh is not None and libfresh["status"] == 0:
+                lib_equals_cli = all(libfresh["files"].get(f) == fresh[f] for f in TS)
+            kinds = []
+            for sc in g["prior"]:
+                r = sc["res"]
+                kinds.append(sc["kind"])
+                if r["status"] != 0:
+                    fails.append("%s: last generation fails (status %s): %s" % (sc["kind"], r["status"], r["log"][-200:]))
+                    continue
+                ref = dict(fresh)
+                if sc["kind"].startswith("lib") and libfresh is not None and libfresh["status"] == 0:
+                    ref = {f: libfresh["files"].get(f) for f in list(TS) + list(VIZ)}
+                last = [st for st in sc["steps"] if st[0] != "mutate"][-1]
+                want = list(TS) + (list(VIZ) if (last[0] == "lib" or "--visualize-deps" in last[3]) else [])
+                for f in want:
+                    if ref.get(f) is None:
+                        continue        # not generated for this project (no events) or no fresh reference
+                    got = r["files"].get(f)
+                    if got != ref[f]:
+                        how = "missing" if got is None else ("%d bytes instead of %d; the fresh content is %sa prefix" % (
+                            len(got), len(ref[f]), "" if got.startswith(ref[f]) else "not "))
+                        fails.append("%s: %s differs from the generation into a fresh directory (%s); damage applied: %s" % (
+                            sc["kind"], f, how, r.get("mutations")))
+            results.append(("prior-state", Outcome(dict(case_id, aspect="prior-state"), True, not fails, None,
+                                                   {"scenarios": kinds, "failures": fails[:4], "lib_fresh_equals_cli_fresh": lib_equals_cli},
+                                                   nontriv)))
         # ---- aspect: transformations that may only reorder declarations
         for vn, (vcase, vruns) in g["variants"].items():
             if vn.startswith("noise"):
@@ -452,6 +585,7 @@ def build_group(case, shape, mode, rng, nbase, nnoise, ntrans, transforms=None):
         if G.Skeleton(vc).dup_names() and not dup:
             continue
         g["variants"][name] = (vc, make_runs(vc, mode, [()] * ntrans, name))
+    g["prior"] = prior_scenarios(rng, case, mode)
     return g
 
 
@@ -468,7 +602,11 @@ def execute(groups):
     res = vlib.pmap(run_cli, jobs, workers=min(32, 2 * vlib.NCPU))
     for r, x in zip(runs, res):
         r.res = x
-    return len(jobs)
+    hist = [sc for g in groups for sc in g.get("prior", [])]
+    hres = vlib.pmap(run_history, [sc["steps"] for sc in hist], workers=min(32, 2 * vlib.NCPU))
+    for sc, x in zip(hist, hres):
+        sc["res"] = x
+    return len(jobs) + sum(sum(1 for st in sc["steps"] if st[0] != "mutate") for sc in hist)
 
 
 # ----------------------------------------------------------------------------- corpus
@@ -485,6 +623,7 @@ def load_corpus():
 
 def run(rep):
     vlib.build_repo_bin()
+    vlib.build_harness("c13")
     vlib.build_runner("c13")
     rng = random.Random(rep.seed)
     quick = rep.tier == "quick"
@@ -555,6 +694,7 @@ def zip_results(results, groups):
 
 def replay(rep, payload):
     vlib.build_repo_bin()
+    vlib.build_harness("c13")
     vlib.build_runner("c13")
     items = payload.get("disagreeing_cases") or [payload]
     for it in items:
